@@ -122,10 +122,13 @@ func (f *ruleFactory) CreateRule(version, srcID string, ruleConfig config2.Rule)
 		return nil, err
 	}
 
-	hm, err := createHostMatcher(ruleConfig.Matcher.Hosts)
+	hms, err := createHostMatcher(ruleConfig.Matcher.Hosts)
 	if err != nil {
 		return nil, err
 	}
+
+	// the request host has to match any one of the configured host expressions
+	hm := anyOfMatcher(hms.(compositeMatcher)) //nolint:forcetypeassert
 
 	sm := schemeMatcher(ruleConfig.Matcher.Scheme)
 
